@@ -126,6 +126,7 @@ class FaultPos:
         flags = gp.gen_flags(rng, tree)
         flags.pop("pin_date", None)
         return {"project": project, "flags": flags, "days": rng.choice([0, 1, 40, 400]), "faults": "all",
+                "verbose": rng.choice([None, None, None, "-v", "-vv", "-vv"]),     # log levels must not change any outcome
                 "order_seed": rng.randrange(1 << 30), "ops": [{"op": "faults"}]}
 
     def shrink(self, case):
@@ -146,6 +147,9 @@ class FaultPos:
         text = rp.render(tree, state)
         clock = tc.step_clock(ctx, dt.date.fromisoformat(project["epoch"]), case.get("days", 0), gp.has_two_digit_year(tree))
         args = gp.flags_to_argv(case.get("flags", {})) + ["--date", clock.isoformat()]
+        if case.get("verbose"):
+            args.append(case["verbose"])
+            ctx.probe("faults_under_" + case["verbose"].strip("-"))
         # the orders in which the config lists the files
         entries = list(project["cfg"]["file_patterns"])
         perms = list(itertools.permutations(range(len(entries)))) if len(entries) <= 4 else None
